@@ -38,12 +38,14 @@ ASSUMPTIONS = [
     "Excl: CONFIG_PROTECT/MASK entries are directories (file entries are arguable); COLLISION_IGNORE globs are chosen so that anchoring at the start of the path makes no difference (pkgcore uses an unanchored search: '/x' also ignores '/y/x')",
     "Excl: more than 9999 pending updates, non-regular files, names '.keep*' (built-in ignores)",
     "Excl: when several pending updates are identical to the incoming file any of their numbers may be reused",
-    "uninstall with a non-'/' offset: MergeEngine.uninstall intersects the un-offset recorded paths with the real '/' (engine.py wraps old_cset, not raw_old_cset), so nothing is unmerged there and the property holds vacuously; this is visible as class 'uninstall/offset/nothing-unmerged'",
+    "uninstall with a non-'/' offset: MergeEngine.uninstall intersects the un-offset recorded paths with the real '/' (engine.py applies the offset to old_cset instead of raw_old_cset), so no file is unmerged there and the unmerge half of the property holds vacuously (classes 'uninstall/offset/unmodified-kept', 'overprotected:*'); replace mode is not affected",
+    "all '/'-offset cases of one task share one forked child (fork is very expensive on the host) which wipes its chroot between cases; every engine/trigger/package object is created per case and a single-case replay must reproduce the batch verdict (checked by the runner)",
 ]
 BOUNDS = {
-    "quick": "install: 4 CONFIG_PROTECT x 3 MASK x 5 COLLISION_IGNORE x {env.d, extra_protects} x 9 paths x 3 existing x 5 pending states x {chroot '/', offset}; uninstall: all configs x 9 paths x 3 live states x 2 offsets; replace: reduced configs x 9 paths x 8 states x 3 dropped-file states x 2 offsets",
-    "thorough": "install: 5 CONFIG_PROTECT x 4 MASK x 7 COLLISION_IGNORE x 2 sources x 9 paths x 4 existing x 9 pending states (+junk/decoy pending names) x 2 offsets; two-file packages (same dir / two protected dirs); replace and uninstall over the full configuration product",
+    "quick": "17.7k executions. install: 60 env.d configurations (4 CONFIG_PROTECT x 3 MASK x 5 COLLISION_IGNORE spellings) + 8 via extra_protects/extra_disables, x 9 paths x 3 existing-file states x 4 pending-update states at '/' (2 at a non-'/' offset); uninstall: 60 configs x 9 paths x 3 live states x 2 offsets; replace: 16 configs x 9 paths x 4 states x {no dropped file, dropped unmodified, dropped modified} x 2 offsets",
+    "thorough": "318k executions. install: 280 configurations (5 x 4 x 7 x {env.d, extra}) x 9 paths x 4 existing x 9 pending states x 2 offsets; + junk/decoy ._cfg names; + two-file packages (same directory, two protected directories; 25 state pairs); replace over all configurations x 8 states x 3 dropped-file states; uninstall x 4 live states",
 }
+TIME_CAP = {"thorough": 840}
 
 NAME = "vq"
 # the package file universe: (path, what it probes)
@@ -161,8 +163,12 @@ def envd_text(case):
     return "".join(l + "\n" for l in lines)
 
 
-# ------------------------------------------------------------------ execution of one case on the real code
+# ------------------------------------------------------------------ execution on the real code
+# Process creation is very expensive on the verification host, so a batch of cases shares one forked child:
+# offset-mode cases run in the worker itself, all '/'-mode cases of a batch run sequentially in ONE child that has
+# chroot()ed into an empty tmpfs directory and wipes it between cases.  Every engine/trigger object is created per case.
 _base_counter = [0]
+AUX = (".img", ".tmp", ".old")
 
 
 def _scratch():
@@ -179,18 +185,16 @@ def _write(path, text):
         f.write(text)
 
 
-def _build_tree(case, base):
-    root = os.path.join(base, "root")
-    inroot = case["mode"] == "root"
-    aux = root if inroot else base  # image/tmp/CONTENTS live inside the chroot for offset "/"
+def _build_tree(case, root, aux):
+    """root: directory that is the offset (or '/' in the chroot); aux: where image/tmp/CONTENTS go."""
     os.makedirs(os.path.join(root, "etc/env.d"))
     for d in IGNORE_DIRS:
-        os.makedirs(root + d, exist_ok=True)
+        os.makedirs(root.rstrip("/") + d, exist_ok=True)
     txt = envd_text(case)
     if txt:
         _write(os.path.join(root, "etc/env.d/50verif"), txt)
     for p, content in pre_state(case).items():
-        _write(root + p, content)
+        _write(root.rstrip("/") + p, content)
     os.makedirs(os.path.join(aux, ".tmp"))
     img = os.path.join(aux, ".img")
     os.makedirs(img)
@@ -203,11 +207,31 @@ def _build_tree(case, base):
         comps = p.split("/")[1:-1]
         for i in range(1, len(comps) + 1):
             dirs.add("/" + "/".join(comps[:i]))
-        # what the old package recorded: content R, except that a file also shipped by the new package was recorded as R too
+        # the old package recorded content R for every file it owned
         recorded.append(f"obj {p} {hashlib.md5(CONTENT['R'].encode()).hexdigest()} 1000")
     if recorded:
         _write(os.path.join(aux, ".old/CONTENTS"), "".join(f"dir {d}\n" for d in sorted(dirs)) + "".join(l + "\n" for l in recorded))
-    return root, aux
+
+
+class _Recorder:
+    """observer output that keeps warnings (the engine reports suppressed trigger exceptions through observer.warn)"""
+
+    def __init__(self):
+        self.warnings = []
+
+    def warn(self, msg, *a, **kw):
+        self.warnings.append(str(msg))
+
+    def error(self, msg, *a, **kw):
+        self.warnings.append(str(msg))
+
+    def info(self, msg, *a, **kw):
+        pass
+
+    debug = write = info
+
+    def flush(self):
+        pass
 
 
 class _Pkg:
@@ -219,10 +243,10 @@ def _snapshot(root):
     out = {}
     for dp, dns, fns in os.walk(root):
         rel = dp[len(root.rstrip("/")) :] or "/"
-        dns[:] = [d for d in dns if not (rel == "/" and d in (".img", ".tmp", ".old"))]
+        dns[:] = [d for d in dns if not (rel == "/" and d in AUX)]
         for fn in fns:
             p = os.path.join(dp, fn)
-            r = (rel.rstrip("/") + "/" + fn)
+            r = rel.rstrip("/") + "/" + fn
             if os.path.islink(p) or not os.path.isfile(p):
                 out[r] = "<special>"
             else:
@@ -242,15 +266,15 @@ def _tripwire_install(hits):
         if event == "import":
             hits.append(f"import {args[0]}")
         elif event in ("open", "os.listdir", "os.scandir") and args and isinstance(args[0], str) and args[0].startswith(watched):
+            if event == "open" and args[0].endswith(".py"):
+                return  # linecache looking for source text while pkgcore formats a suppressed traceback: harmless
             hits.append(f"{event} {args[0]}")
 
     sys.addaudithook(hook)
 
 
-def _run_in_child(case, base):
-    """Runs in the forked child. Returns a JSON-able result."""
-    from snakeoil.chksum import get_handlers
-
+def _run_case(case, root, aux, offset):
+    """Build the pre-state and drive the real engine once. root == '/' inside the chroot."""
     from pkgcore.ebuild import triggers as et
     from pkgcore.fs import livefs
     from pkgcore.merge import triggers as mt
@@ -258,18 +282,10 @@ def _run_in_child(case, base):
     from pkgcore.operations import observer as om
     from pkgcore.vdb.contents import ContentsFile
 
-    get_handlers()  # checksum handlers are loaded lazily from the package directory: force it before chroot
-    root, aux = _build_tree(case, base)
-    hits = []
-    if case["mode"] == "root":
-        os.chroot(root)
-        os.chdir("/")
-        _tripwire_install(hits)
-        root, aux, offset = "/", "/", None
-    else:
-        offset = root
+    _build_tree(case, root, aux)
     res = {"exc": None, "phase": None, "recorded": None, "uninstall_seen": None}
-    obs = om.repo_observer(om.null_output())
+    rec = _Recorder()
+    obs = om.repo_observer(rec)
     tmp = os.path.join(aux, ".tmp")
     img = os.path.join(aux, ".img")
     phase = "setup"
@@ -315,7 +331,8 @@ def _run_in_child(case, base):
         res["exc"] = f"{type(exc).__name__}: {exc}"[:300]
         res["phase"] = phase
     res["fs"] = _snapshot(root)
-    res["tripwire"] = hits[:10]
+    # last line of every suppressed traceback / warning, e.g. "AttributeError: 'str' object has no attribute 'extend'"
+    res["warn"] = [w.strip().splitlines()[-1][:200] for w in rec.warnings if w.strip()][:5]
     return res
 
 
@@ -323,7 +340,7 @@ _warm = []
 
 
 def _warm_up():
-    """Load everything the child needs in the parent, once (the child must not import after chroot)."""
+    """Load everything needed in the worker, once (nothing may be imported after chroot)."""
     if _warm:
         return
     import snakeoil.chksum
@@ -336,45 +353,81 @@ def _warm_up():
     import pkgcore.operations.observer  # noqa: F401
     import pkgcore.vdb.contents  # noqa: F401
 
-    snakeoil.chksum.get_handlers()
+    snakeoil.chksum.get_handlers()  # handlers are discovered by listing the package directory: do it before chroot
     _warm.append(1)
 
 
-def execute(case):
-    """Fork, run the case on the real code, return the observation dict."""
+def _chroot_child(cases, jail, wfd):
+    """In the forked child: chroot into the empty directory `jail`, run every case at offset '/'."""
+    os.chroot(jail)
+    os.chdir("/")
+    hits = []
+    _tripwire_install(hits)
+    out = []
+    for case in cases:
+        for name in os.listdir("/"):
+            shutil.rmtree("/" + name)
+        res = _run_case(case, "/", "/", None)
+        res["tripwire"] = hits[:10]
+        out.append(res)
+    for name in os.listdir("/"):
+        shutil.rmtree("/" + name)
+    with os.fdopen(wfd, "w") as f:
+        json.dump(out, f)
+
+
+def execute_batch(cases):
+    """Run the cases on the real code; returns the list of observation dicts (same order)."""
     _warm_up()
+    results = [None] * len(cases)
     top, base = _scratch()
     try:
-        r, w = os.pipe()
-        sys.stdout.flush()
-        sys.stderr.flush()
-        pid = os.fork()
-        if pid == 0:
-            status = 0
+        # non-'/' offset: in this process, a fresh directory per case
+        for i, case in enumerate(cases):
+            if case["mode"] != "offset":
+                continue
+            d = os.path.join(base, f"o{i}")
+            root = os.path.join(d, "root")
+            os.makedirs(root)
             try:
-                os.close(r)
-                try:
-                    out = _run_in_child(case, base)
-                except BaseException as e:  # harness failure inside the child
-                    out = {"harness_error": f"{type(e).__name__}: {e}\n{traceback.format_exc()}"}
-                with os.fdopen(w, "w") as f:
-                    json.dump(out, f)
-            except BaseException:
-                status = 1
+                results[i] = _run_case(case, root, d, root)
             finally:
-                os._exit(status)
-        os.close(w)
-        with os.fdopen(r) as f:
-            data = f.read()
-        _, st = os.waitpid(pid, 0)
-        if st != 0 or not data:
-            raise RuntimeError(f"C21 child failed status={st} case={case}")
-        res = json.loads(data)
-        if "harness_error" in res:
-            raise RuntimeError("C21 harness error in child: " + res["harness_error"])
-        if res.get("tripwire"):
-            raise RuntimeError(f"C21 tripwire: code loaded lazily inside the chroot, results unreliable: {res['tripwire']}")
-        return res
+                shutil.rmtree(d, ignore_errors=True)
+        idx = [i for i, case in enumerate(cases) if case["mode"] == "root"]
+        if idx:
+            jail = os.path.join(base, "jail")
+            os.makedirs(jail)
+            r, w = os.pipe()
+            sys.stdout.flush()
+            sys.stderr.flush()
+            pid = os.fork()
+            if pid == 0:
+                status = 0
+                try:
+                    os.close(r)
+                    try:
+                        _chroot_child([cases[i] for i in idx], jail, w)
+                    except BaseException as e:  # harness failure inside the child
+                        with os.fdopen(w, "w") as f:
+                            json.dump({"harness_error": f"{type(e).__name__}: {e} | {traceback.format_exc()}"}, f)
+                except BaseException:
+                    status = 1
+                finally:
+                    os._exit(status)
+            os.close(w)
+            with os.fdopen(r) as f:
+                data = f.read()
+            _, st = os.waitpid(pid, 0)
+            if st != 0 or not data:
+                raise RuntimeError(f"C21 child failed status={st}")
+            out = json.loads(data)
+            if isinstance(out, dict):
+                raise RuntimeError("C21 harness error in child: " + out["harness_error"])
+            for i, res in zip(idx, out):
+                if res.get("tripwire"):
+                    raise RuntimeError(f"C21 tripwire: code loaded lazily inside the chroot, results unreliable: {res['tripwire']}")
+                results[i] = res
+        return results
     finally:
         shutil.rmtree(base, ignore_errors=True)
         try:
@@ -394,6 +447,8 @@ def judge(case, res):
     exc = res["exc"]
     if exc:
         classes.append(f"{tag}/raised-in-{res['phase']}")
+    if res.get("warn"):
+        classes.append(f"{tag}/trigger-exception-suppressed")
     for f in case.get("files", ()):
         p = f["p"]
         new = CONTENT["N"]
@@ -459,12 +514,10 @@ def judge(case, res):
                 fails.append(("removed-modified", f"{p}: protected file {live!r} differs from the recorded content but after the unmerge it is {fs.get(p)!r}"))
                 classes.append(f"{tag}/DEMAND-FAILED")
             else:
-                classes.append(f"{tag}/" + ("nothing-unmerged" if res["uninstall_seen"] == 0 and case["op"] == "uninstall" else "modified-kept"))
+                classes.append(f"{tag}/modified-kept")
         elif not exc:
             if live is None:
                 o = "already-absent"
-            elif res["uninstall_seen"] == 0 and case["op"] == "uninstall":
-                o = "nothing-unmerged"
             elif live == CONTENT["R"]:
                 o = "unmodified-removed" if p not in fs else "unmodified-kept"
             else:
@@ -473,29 +526,43 @@ def judge(case, res):
     return fails, classes
 
 
-def check_case(case):
-    case = {k: v for k, v in case.items() if k not in ("msg", "fail")}
-    res = execute(case)
-    return judge(case, res)
+def check_cases(cases):
+    """-> per case (failures [(kind, msg)], classes, suppressed-exception text or None)"""
+    cases = [{k: v for k, v in case.items() if k not in ("msg", "fail", "supp")} for case in cases]
+    out = []
+    for case, res in zip(cases, execute_batch(cases)):
+        fails, classes = judge(case, res)
+        supp = res["warn"][0] if res.get("warn") else None
+        if supp:
+            fails = [(k, m + f" [engine suppressed a trigger exception: {supp}]") for k, m in fails]
+        out.append((fails, classes, supp))
+    return out
 
 
 # ------------------------------------------------------------------ enumeration
 def configs(tier, sources=("envd", "extra")):
     out = []
-    for prot, mask, (ign, decl), src in itertools.product(PROTECTS[tier], MASKS[tier], IGNORES[tier], sources):
-        if src == "extra" and prot is None and mask is None:
-            continue  # identical to the env.d variant
-        out.append({"protect": prot, "mask": mask, "ignore": ign, "igdecl": decl, "src": src})
+    for src in sources:
+        for prot, mask, (ign, decl) in itertools.product(PROTECTS[tier], MASKS[tier], IGNORES[tier]):
+            if src == "extra":
+                if prot is None and mask is None:
+                    continue  # identical to the env.d variant
+                if tier == "quick" and (prot not in ("/etc /opt/c", "/opt/c/") or mask == "/etc/m" or (ign, decl) not in ((None, "plain"), ("*.ign", "ss"))):
+                    continue
+            out.append({"protect": prot, "mask": mask, "ignore": ign, "igdecl": decl, "src": src})
     return out
 
 
-def file_states(tier, small=False):
-    if small:
+def file_states(tier, kind="full"):
+    if kind == "small":
         exs = ["I", "D"]
-        pends = [[], [[0, "D"]], [[0, "I"]], [[0, "D"], [3, "I"]]]
+        pends = [[], [[0, "D"]]] if tier == "quick" else [[], [[0, "D"]], [[0, "I"]], [[0, "D"], [3, "I"]]]
+    elif kind == "offset-quick":
+        exs = ["A", "I", "D"]
+        pends = [[], [[0, "D"], [3, "I"]]]
     elif tier == "quick":
         exs = ["A", "I", "D"]
-        pends = [[], [[0, "I"]], [[0, "D"]], [[0, "D"], [3, "I"]], [[0, "D"], [3, "D"]]]
+        pends = [[], [[0, "I"]], [[0, "D"], [3, "I"]], [[0, "D"], [3, "D"]]]
     else:
         exs = ["A", "I", "D", "L"]
         pends = [
@@ -524,8 +591,9 @@ def all_cases(tier):
     # 1. install, one file
     for cfg in cfgs:
         for mode in modes:
+            kind = "offset-quick" if (tier == "quick" and mode == "offset") else "full"
             for p in PATHS:
-                for ex, pend in file_states(tier):
+                for ex, pend in file_states(tier, kind):
                     out.append(dict(cfg, op="install", mode=mode, files=[{"p": p, "ex": ex, "pend": pend}]))
     # 2. uninstall, one file (ConfigProtectUninstall only reads env.d)
     for cfg in cfgs_envd:
@@ -534,12 +602,15 @@ def all_cases(tier):
                 for live in (["A", "R", "D"] if tier == "quick" else ["A", "R", "D", "L"]):
                     out.append(dict(cfg, op="uninstall", mode=mode, ufiles=[{"p": p, "live": live}]))
     # 3. replace: file shipped by both packages + optionally a file dropped by the new package, in the same directory
-    rcfgs = cfgs if tier == "thorough" else [c for c in cfgs if c["mask"] != "/etc/m /opt/c/m" and c["ignore"] in (None, "*.ign") and c["igdecl"] == ("ss" if c["ignore"] else "plain")]
+    if tier == "thorough":
+        rcfgs = cfgs
+    else:
+        rcfgs = [c for c in cfgs_envd if c["mask"] != "/etc/m /opt/c/m" and (c["ignore"], c["igdecl"]) in ((None, "plain"), ("*.ign", "ss"))]
     for cfg in rcfgs:
         for mode in modes:
             for p in PATHS:
                 d = p.rsplit("/", 1)[0]
-                for ex, pend in file_states(tier, small=True):
+                for ex, pend in file_states(tier, "small"):
                     for dropped in (None, "R", "D"):
                         c = dict(cfg, op="replace", mode=mode, files=[{"p": p, "ex": ex, "pend": pend}])
                         if dropped:
@@ -586,52 +657,58 @@ def work(task):
     classes = {}
     viol = []
     samples = []
-    for case in cases[lo:hi]:
-        fails, cls = check_case(case)
+    batch = cases[lo:hi]
+    for case, (fails, cls, supp) in zip(batch, check_cases(batch)):
         evals += 1
         for c in cls:
             classes[c] = classes.get(c, 0) + 1
         if fails:
-            viol.append(dict(case, fail=fails[0][0], msg=fails[0][1]))
+            viol.append(dict(case, fail=fails[0][0], supp=supp, msg=fails[0][1]))
     samples.append(cases[lo])
     return {"evals": evals, "classes": classes, "viol": viol, "samples": samples}
 
 
 def replay(case):
-    fails, _ = check_case(case)
+    fails, _, _ = check_cases([case])[0]
     return [m for _, m in fails]
 
 
 # ------------------------------------------------------------------ classifiers for known findings
 def _ignore_plain_string(case):
     """COLLISION_IGNORE set in env.d without SPACE_SEPARATED: collapse_envd returns a str and
-    gen_collision_ignore_filter calls .extend on it."""
-    return case.get("fail") == "raised" and case.get("ignore") is not None and case.get("igdecl") == "plain" and "'str' object has no attribute 'extend'" in case.get("msg", "")
+    gen_collision_ignore_filter calls .extend on it; the engine suppresses the exception and merges unprotected."""
+    return case.get("ignore") is not None and case.get("igdecl") == "plain" and "'str' object has no attribute 'extend'" in (case.get("supp") or "")
 
 
 def _ignore_dir_entry(case):
     """A COLLISION_IGNORE entry naming an existing directory: `ignored.rstrip` is called on the list."""
     return (
-        case.get("fail") == "raised"
-        and case.get("mode") == "root"
+        case.get("mode") == "root"
         and case.get("igdecl") == "ss"
         and any(_norm(e) in IGNORE_DIRS and not e.endswith("/*") for e in (case.get("ignore") or "").split())
-        and "'list' object has no attribute 'rstrip'" in case.get("msg", "")
+        and "'list' object has no attribute 'rstrip'" in (case.get("supp") or "")
     )
 
 
 def _offset_unprotected(case):
     """Non-'/' offset: the filters are matched against offset-prefixed locations, so nothing is ever protected on merge."""
-    return case.get("mode") == "offset" and case.get("op") in ("install", "replace") and case.get("fail") in ("overwritten", "no-cfg-file")
+    return case.get("mode") == "offset" and case.get("op") in ("install", "replace") and case.get("fail") in ("overwritten", "no-cfg-file") and not case.get("supp")
 
 
 def _uninstall_live_vs_live(case):
     """ConfigProtectUninstall compares the live file with itself (the 'uninstall' cset is the livefs intersection,
     not the recorded contents), so modified protected files are removed."""
-    return case.get("fail") == "removed-modified" and case.get("op") in ("uninstall", "replace")
+    return case.get("fail") == "removed-modified" and case.get("op") in ("uninstall", "replace") and not case.get("supp")
+
+
+def _number_never_reused(case):
+    """ConfigProtectInstall compares the *real* file instead of the pending ._cfgNNNN_ file with the incoming one
+    (updates[fn].append((count, fn)) drops the ._cfg name), so an identical pending update is never recognised."""
+    return case.get("fail") == "number-not-reused" and case.get("op") in ("install", "replace") and not case.get("supp")
 
 
 CLASSIFIERS = {
+    "pending-update-number-never-reused": _number_never_reused,
     "envd-collision-ignore-is-a-string": _ignore_plain_string,
     "collision-ignore-directory-entry-raises": _ignore_dir_entry,
     "non-root-offset-never-protected": _offset_unprotected,
